@@ -42,6 +42,13 @@ MODES = {
     "exception_empty_message": ("raise RuntimeError('')", False),
     "assertion_error_without_message": ("raise AssertionError", False),
     "baseexception_subclass_without_message": ("class _Stop(BaseException):\n    pass\nraise _Stop()", False),
+    # exception objects that are falsy (an error collection that defines __len__ / __bool__)
+    "uncaught_exception_with_len_0": ("class _Errs(Exception):\n    def __len__(self):\n        return 0\nraise _Errs()", False),
+    "uncaught_exception_bool_false": ("class _Quiet(Exception):\n    def __bool__(self):\n        return False\nraise _Quiet('stop')", False),
+    # the script provokes refusals of the library (failed assertion, failed hand-written constraint, division by zero), handles them and ends normally
+    "caught_library_refusals_then_end": ("import pysnark.runtime as _r\nfor _f in (lambda: PrivVal(3).assert_eq(4), lambda: _r.add_constraint(PrivVal(2), PrivVal(3), PrivVal(7)),\n"
+                                         "           lambda: PrivVal(1) / PrivVal(0), lambda: PrivVal(5).assert_lt(2), lambda: PrivVal(2) * 'x'):\n"
+                                         "    try:\n        _f()\n    except (AssertionError, ZeroDivisionError, ValueError, RuntimeError, TypeError):\n        pass", True),
     "sys_exit_msg": ("sys.exit('stop: invalid input')", False),
     "sys_exit_empty_str": ("sys.exit('')", False),
     "sys_exit_empty_list": ("sys.exit([])", False),
@@ -92,7 +99,9 @@ CONTROL_IMPORTS = "PrivVal = PubVal = lambda v: v\nif_then_else = lambda c, a, b
 
 
 # what the control run (same termination, no pysnark) executes where the script's text needs the library
+TRACING_MODES = ("caught_library_refusals_then_end",)
 CONTROL_INS = {
+    "caught_library_refusals_then_end": "pass",
     "exception_inside_benchmark": "def _bf():\n    raise ValueError('boom')\n_bf()",
 }
 PRE_IMPORT = {
@@ -269,11 +278,12 @@ def worker(job):
             R.count("success_runs_judged")
             # reference: the first k statements falling off the end (for fall_off: the whole script)
             kk = len(st) if mode == "fall_off" else k
-            rk = (be, tuple(st[:kk]))
+            ref_st = list(st[:kk]) + ([MODES[mode][0]] if mode in TRACING_MODES else [])     # a termination text that itself traces belongs to the trace
+            rk = (be, tuple(ref_st))
             if rk not in ref_cache:
                 wd = tempfile.mkdtemp(prefix="c18r-", dir=home)
                 try:
-                    run_script(make_script(st[:kk], kk, "fall_off"), wd, be)
+                    run_script(make_script(ref_st, len(ref_st), "fall_off"), wd, be)
                     ref_cache[rk] = ({a: open(os.path.join(wd, a), "rb").read() for a in arts if os.path.exists(os.path.join(wd, a))},
                                      {f: open(os.path.join(wd, "keys", f), "rb").read() for f in os.listdir(os.path.join(wd, "keys")) if f.startswith("pysnark_eqs_")})
                 finally:
